@@ -186,6 +186,20 @@ CListInt(v, xs) ==
       item(x) == IF v >= 3 THEN Int32(4) \o Int32(x) ELSE Short(4) \o Int32(x)
   IN Cell(FALSE, (IF v >= 3 THEN Int32(Len(xs)) ELSE Short(Len(xs))) \o Flat(Map(xs, item)), r, r, <<>>)
 CNullList == Cell(TRUE, <<>>, "null", "[]", <<>>)
+\* blob: the bytes as they are.  A []byte destination cannot tell null from empty (both are
+\* rendered "b:"); the raw consumers compare the null-ness of every cell exactly.
+CBlob(bs) == Cell(FALSE, bs, "b:" \o JoinInts(bs), "b:" \o JoinInts(bs), <<>>)
+CNullBlob == Cell(TRUE, <<>>, "b:", "b:", <<>>)
+\* map<int,int> (keys ascending): count, then per entry key and value, each length-prefixed
+\* ([int] count/lengths from v3, [short] before)
+RECURSIVE JoinPairs(_, _)
+JoinPairs(ks, vs) == IF Len(ks) = 0 THEN ""
+                     ELSE ToString(ks[1]) \o ":" \o ToString(vs[1]) \o (IF Len(ks) = 1 THEN "" ELSE "," \o JoinPairs(Tail(ks), Tail(vs)))
+CMapIntInt(v, ks, vs) ==
+  LET r == "{" \o JoinPairs(ks, vs) \o "}"
+      len(n) == IF v >= 3 THEN Int32(n) ELSE Short(n)
+  IN Cell(FALSE, len(Len(ks)) \o Flat([i \in 1 .. Len(ks) |-> len(4) \o Int32(ks[i]) \o len(4) \o Int32(vs[i])]), r, r, <<>>)
+CNullMap == Cell(TRUE, <<>>, "null", "{}", <<>>)
 \* tuple: the concatenation of its elements as [bytes]
 CTuple(es) == Cell(FALSE, Flat(Map(es, WBytes)), "", "", es)
 CNullTuple(nullelems) == Cell(TRUE, <<>>, "", "", nullelems)
@@ -309,6 +323,8 @@ RowsConsumers(cols, rows, known, typed) ==
    c_rawscanner |-> Consumer(known, Map(rows, RawRow)),
    c_ptrscan |-> Consumer(known /\ typed, Map(rows, PtrRow)),
    c_ptrscanner |-> Consumer(known /\ typed, Map(rows, PtrRow)),
+   \* fresh destinations for every row, all of them looked at only after the whole result was read
+   c_keepscan |-> Consumer(known /\ typed, Map(rows, PtrRow)),
    c_mapscan |-> Consumer(known /\ typed, [i \in 1 .. Len(rows) |-> SortByKey(NamedRow(cols, rows[i]))]),
    c_slicemap |-> Consumer(known /\ typed, [i \in 1 .. Len(rows) |-> SortByKey(NamedRow(cols, rows[i]))])]
 
